@@ -2,11 +2,14 @@ package vrun
 
 import (
 	"fmt"
+	"net"
 	"sort"
 	"strings"
 	"testing"
 
+	"verif/harness/chaos"
 	"verif/harness/out"
+	"verif/harness/rawclient"
 	rc "verif/harness/refcodec"
 	"verif/harness/spec"
 )
@@ -64,7 +67,30 @@ func c10History(t *testing.T, idx int, seed uint64) {
 		for s := 0; s < steps; s++ {
 			id := c10IDs[r.Intn(len(c10IDs))]
 			c := live[id]
+			_, hasState := stored[id]
 			switch op := r.Intn(10); {
+			case c == nil && hasState && r.Intn(4) == 0:
+				// a resume attempt whose transport dies before the CONNACK is out: the broker has read the
+				// CONNECT, its answer cannot be written. The kept state must survive the attempt.
+				after := int64(r.Intn(4)) // 0..3 of the 4 CONNACK bytes get through
+				ops = append(ops, fmt.Sprintf("%s CONNECT clean=false, transport fails after %d answer bytes", id, after))
+				cside, sside := net.Pipe()
+				cc := chaos.Wrap(sside)
+				cc.FailWriteAfter, cc.CloseOnFail = after, true
+				w.serveConn(cc)
+				fc := rawclient.New(id+"-failing", cside, nil)
+				fc.SendPacket(connectPacket(connectOpts{ClientID: id, Clean: false, KeepAlive: 600}))
+				settle()
+				if !fc.Closed() {
+					fail("c10:harness", "the failing transport was not closed")
+					return
+				}
+				fc.Close()
+				settle()
+				out.Count("c10.failed_resume_attempts", 1)
+				if !probe("after a resume attempt of " + id + " whose CONNACK could not be written") {
+					return
+				}
 			case c == nil: // connect
 				clean := r.Intn(3) == 0
 				ops = append(ops, fmt.Sprintf("%s CONNECT clean=%v", id, clean))
